@@ -219,6 +219,38 @@ class Explorer:
                 return "sat", s.model()
         return "unknown", None
 
+    def _retry_unknown(self, extra, group=None):
+        """'unknown' (usually a wall-clock timeout under machine load; nlsat run times are heavy-tailed): retry with
+        fresh solvers, other seeds / logics and longer timeouts.  Only ever replaces unknown by a definite z3 answer."""
+        cons = []
+        for c in self.constraints:
+            cg = self.groups.get(c.get_id())
+            if cg is None or cg == group:
+                cons.append(c)
+        ladder = [("QF_NRA", 0, 2), (None, 7, 2), ("QF_NRA", 13, 4), (None, 23, 6)]
+        for logic, seed, mult in ladder:
+            try:
+                s = z3.SolverFor(logic) if logic else z3.Solver()
+                s.set("timeout", int(self.timeout_ms * mult))
+                if seed:
+                    try:
+                        s.set("random_seed", seed)
+                    except z3.Z3Exception:
+                        pass
+                s.add(*cons)
+                s.add(*extra)
+                t0 = time.time()
+                r = str(s.check())
+                self.stats.queries += 1
+                self.stats.solver_time += time.time() - t0
+            except z3.Z3Exception:
+                continue
+            if r == "unsat":
+                return "unsat", None
+            if r == "sat":
+                return "sat", s.model()
+        return "unknown", None
+
     def _holds_in_model(self, c):
         if self.model is None:
             return None
@@ -497,6 +529,8 @@ class Explorer:
         extra = [neg] + [z3.Not(r) for _, r in regions]
         r, m = self._check_sliced(*extra, group=group)
         if r == "unknown":
+            r, m = self._retry_unknown(extra, group=group)
+        if r == "unknown":
             r, m = self._sample_sat(extra)
         ok = True
         if r == "sat":
@@ -510,6 +544,10 @@ class Explorer:
             self.stats.errors.append("unknown: %s %s" % (name, self.case_info))
         for fid, reg in regions:
             r2, m2 = self._check_sliced(neg, reg, group=group)
+            if r2 == "unknown":
+                r2, m2 = self._retry_unknown([neg, reg], group=group)
+            if r2 == "unknown":
+                r2, m2 = self._sample_sat([neg, reg])
             if r2 == "sat":
                 ok = False
                 if sum(1 for c in self.stats.candidates if c.known == fid) < 2:
@@ -529,6 +567,8 @@ class Explorer:
         """reachability twin: the path condition (assumptions + decisions + domain constraints) must be sat"""
         self.stats.twins += 1
         r, m = self._check()
+        if r == "unknown":
+            r, m = self._retry_unknown([])
         if r == "sat":
             self.stats.twins_sat += 1
             self.model = m
